@@ -40,7 +40,7 @@ theorem builtinOp_facts : ∀ t : TokType, builtinOp t = true →
 /-- the first token of an expression -/
 def startTy (t : TokType) : Bool :=
   t == .IDENT || t == .INT || t == .FLOAT || t == .STRING || t == .TRUE || t == .FALSE || t == .LPAREN || t == .LBRACKET || preOp t
-    || t == .BREAK || t == .CONTINUE || t == .IF || t == .FOR || t == .FUNC || builtinOp t
+    || t == .BREAK || t == .CONTINUE || t == .IF || t == .FOR || t == .FUNC || builtinOp t || t == .DOTDOT || t == .MACRO || t == .LBRACE
 
 theorem startTy_facts : ∀ t : TokType, startTy t = true →
     t ≠ .RPAREN ∧ t ≠ .RBRACKET ∧ t ≠ .COMMA ∧ t ≠ .EOF ∧ t ≠ .EOL ∧ t ≠ .RETURN ∧ t ≠ .SEMICOLON ∧ t ≠ .LAMBDA ∧ t ≠ .RBRACE := by
@@ -111,14 +111,20 @@ theorem seg_tkNum {i : Nat} {t : Tk} {n : NumClass} {ws : Bool} (h : key (s.get 
 
 /-! ### the first token of a rendering -/
 
-def Head (ws : Bool) (l : List Tok) : Prop := ∃ x rest, l = x :: rest ∧ startTy x.type = true ∧ x.hadWs = ws
+def isOpener (t : TokType) : Prop := t = .LPAREN ∨ t = .LBRACKET
+
+/-- the rendering starts with a token that can start an expression; if that is `(` or `[`, its whitespace flag is `ws` -/
+def Head (ws : Bool) (l : List Tok) : Prop := ∃ x rest, l = x :: rest ∧ startTy x.type = true ∧ (isOpener x.type → x.hadWs = ws)
 
 theorem Head.append {ws : Bool} {l : List Tok} (h : Head ws l) (m : List Tok) : Head ws (l ++ m) := by
   obtain ⟨x, rest, rfl, h1, h2⟩ := h
   exact ⟨x, rest ++ m, rfl, h1, h2⟩
 
 theorem Head.cons {ws : Bool} {x : Tok} (h1 : startTy x.type = true) (h2 : x.hadWs = ws) (m : List Tok) : Head ws (x :: m) :=
-  ⟨x, m, rfl, h1, h2⟩
+  ⟨x, m, rfl, h1, fun _ => h2⟩
+
+theorem Head.cons' {ws : Bool} {x : Tok} (h1 : startTy x.type = true) (h2 : ¬ isOpener x.type) (m : List Tok) : Head ws (x :: m) :=
+  ⟨x, m, rfl, h1, fun h => absurd h h2⟩
 
 theorem head_lparen (ws : Bool) (m : List Tok) : Head ws (lparen ws :: m) :=
   Head.cons (show startTy TokType.LPAREN = true by decide) rfl m
@@ -126,8 +132,8 @@ theorem head_lparen (ws : Bool) (m : List Tok) : Head ws (lparen ws :: m) :=
 mutual
 theorem head_node : ∀ (t : Node), fragN c ap t = true → ∀ (q : Nat) (ws : Bool), Head ws (exprToks c ap q ws t)
   | .ident t, h, q, ws => by
-    simp only [fragN, beq_iff_eq] at h
-    simp only [exprToks]; exact Head.cons (by simp [tk, h, startTy]) rfl _
+    simp only [fragN, Bool.or_eq_true, beq_iff_eq] at h
+    simp only [exprToks]; exact Head.cons (by rcases h with h | h <;> simp [tk, h, startTy]) rfl _
   | .strLit t, h, q, ws => by
     simp only [fragN, beq_iff_eq] at h
     simp only [exprToks]; exact Head.cons (by simp [tk, h, startTy]) rfl _
@@ -172,15 +178,45 @@ theorem head_node : ∀ (t : Node), fragN c ap t = true → ∀ (q : Nat) (ws : 
     simp only [fragN, Bool.and_eq_true] at h
     simp only [exprToks]; exact Head.cons (by simp [tk, startTy, h.1]) rfl _
   | .func t nm ps b v isL, h, q, ws => by
-    simp only [fragN, Bool.and_eq_true, Bool.not_eq_true', beq_iff_eq] at h
-    simp only [exprToks, h.1.1.1.1, Bool.false_eq_true, if_false, List.cons_append]
-    exact Head.cons (by simp [tk, startTy, h.1.1.1.2]) rfl _
+    cases isL with
+    | false =>
+      simp only [fragN, Bool.false_eq_true, if_false, Bool.and_eq_true, beq_iff_eq] at h
+      simp only [exprToks, Bool.false_eq_true, if_false, List.cons_append]
+      exact Head.cons (by simp [tk, startTy, h.1.1.1]) rfl _
+    | true =>
+      simp only [fragN, if_true, Bool.and_eq_true, beq_iff_eq] at h
+      simp only [exprToks, if_true]
+      by_cases ho : prioLAMBDA < q
+      · simp only [ho, decide_true, if_true, List.cons_append, List.nil_append, List.append_assoc]
+        exact head_lparen _ _
+      · simp only [ho, decide_false, Bool.false_eq_true, if_false, List.nil_append, Bool.not_false, Bool.true_and, List.append_nil]
+        split
+        · -- one parameter: an identifier or `..`
+          rename_i hlen
+          match ps, hlen, h with
+          | [x], _, h =>
+            have hok := h.1.2
+            simp only [lambdaParamsOK, Bool.and_eq_true, List.all_cons, List.all_nil, Bool.and_true] at hok
+            cases x with
+            | none => simp [isParam] at hok
+            | some n =>
+              cases n <;> first
+                | (simp only [isParam, Bool.or_eq_true, beq_iff_eq] at hok
+                   simp only [listToks, Bool.false_eq_true, if_false, exprToksO, exprToks, Bool.false_and, List.nil_append, List.cons_append,
+                     List.append_nil, List.append_assoc]
+                   exact Head.cons' (by rcases hok.1 with h' | h' <;> simp [tk, h', startTy])
+                     (by rcases hok.1 with h' | h' <;> simp [tk, h', isOpener]) _)
+                | simp [isParam] at hok
+          | [], hlen, _ => simp at hlen
+          | _ :: _ :: _, hlen, _ => simp at hlen
+        · simp only [List.cons_append]; exact head_lparen _ _
   | .forE t cnd b, h, q, ws => by
     simp only [exprToks, List.cons_append]; exact Head.cons (show startTy TokType.FOR = true by decide) rfl _
   | .ifE t cnd a b, h, q, ws => by
     simp only [exprToks, List.cons_append]; exact Head.cons (show startTy TokType.IF = true by decide) rfl _
   | .index t l i, h, q, ws => by
-    simp only [fragN, Bool.and_eq_true, Bool.or_eq_true, beq_iff_eq] at h
+    have hl : fragO c ap l = true := by
+      simp only [fragN, Bool.and_eq_true] at h; exact h.1
     simp only [exprToks]
     by_cases hn : (ap || decide (precOf t.type < q)) = true
     · simp only [hn, if_true, List.cons_append, List.nil_append]
@@ -188,8 +224,13 @@ theorem head_node : ∀ (t : Node), fragN c ap t = true → ∀ (q : Nat) (ws : 
     · simp only [hn, Bool.false_eq_true, if_false, List.nil_append, Bool.not_false, Bool.true_and, List.append_nil]
       split
       · simp only [List.cons_append]; exact head_lparen _ _
-      · simp only [List.append_assoc]; exact (head_opt l h.1.2 (precOf t.type) ws).append _
-  | .comment _ _ _, h, _, _ | .ret _ _, h, _, _ | .mapLit _ _, h, _, _ | .macroLit _ _ _, h, _, _ => by simp [fragN] at h
+      · simp only [List.append_assoc]; exact (head_opt l hl (precOf t.type) ws).append _
+  | .macroLit t ps b, h, q, ws => by
+    simp only [fragN, Bool.and_eq_true, beq_iff_eq] at h
+    simp only [exprToks]; exact Head.cons (by simp [tk, startTy, h.1.1]) rfl _
+  | .mapLit t kvs, h, q, ws => by
+    simp only [exprToks, List.cons_append]; exact Head.cons' (show startTy TokType.LBRACE = true by decide) (by simp [sym, isOpener]) _
+  | .comment _ _ _, h, _, _ | .ret _ _, h, _, _ => by simp [fragN] at h
 theorem head_opt : ∀ (t : Option Node), fragO c ap t = true → ∀ (q : Nat) (ws : Bool), Head ws (exprToksO c ap q ws t)
   | none, h, _, _ => by simp [fragO] at h
   | some n, h, q, ws => by
@@ -232,13 +273,14 @@ theorem pE_atom {P i : Nat} {res : ONode × PState} {nd : Node} {fn : PrefixFn}
   rw [pE_step (s := s) (st := stAt s i) (by simpa using h1) (by simpa using h2) (h3 g) (by simpa using h4)]
   exact hF _ hf
 
-theorem gpa_ident (t : Tk) (h : t.type = .IDENT) : GPA s (.ident t) := by
+theorem gpa_ident (t : Tk) (h : t.type = .IDENT ∨ t.type = .DOTDOT) : GPA s (.ident t) := by
   intro c ap ws q P i j res hseg hj hstop
   simp only [exprToks, Seg_cons, Seg_nil, and_true, List.length_cons, List.length_nil] at hseg hj
   obtain rfl : j = i := by omega
   have hty := seg_type hseg
   simp only [tk] at hty
-  refine pE_atom (fn := .parseIdentifier) (by rw [hty, h]; decide) (by rw [hty, h]; decide) (fun f => ?_) hstop.1
+  refine pE_atom (fn := .parseIdentifier) (by rw [hty]; rcases h with h | h <;> rw [h] <;> decide)
+    (by rw [hty]; rcases h with h | h <;> rw [h] <;> decide) (fun f => ?_) hstop.1
   rw [pd_ident, parseIdentifier_ok (by simpa using postfix_none _ hstop.2.1 hstop.2.2), stAt_cur, seg_tk hseg]
 
 theorem gpa_strLit (t : Tk) (h : t.type = .STRING) : GPA s (.strLit t) := by
@@ -396,10 +438,10 @@ theorem Head.seg_start {ws : Bool} {l : List Tok} {i : Nat} (h : Head ws l) (hs 
 
 /-- a binary expression without its parentheses -/
 theorem infix_body {t : Tk} {l r : Node} (hl : GP s c ap l) (hr : GP s c ap r) (hfl : fragN c ap l = true) (hfr : fragN c ap r = true)
-    (hop : binOp t.type = true) (w : Bool) (q P i j : Nat) (res : ONode × PState)
+    (hop : binOp t.type = true) (w w1 w2 : Bool) (q P i j : Nat) (res : ONode × PState)
     (hq : q ≤ precOf t.type) (hc : Compat P q)
-    (hseg : Seg s i (exprToks c ap (precOf t.type) w l ++ tk t (!c) :: exprToks c ap (precOf t.type + 1) (!c) r))
-    (hj : j + 1 = i + (exprToks c ap (precOf t.type) w l).length + 1 + (exprToks c ap (precOf t.type + 1) (!c) r).length)
+    (hseg : Seg s i (exprToks c ap (precOf t.type) w l ++ tk t w1 :: exprToks c ap (precOf t.type + 1) w2 r))
+    (hj : j + 1 = i + (exprToks c ap (precOf t.type) w l).length + 1 + (exprToks c ap (precOf t.type + 1) w2 r).length)
     (hstop : Stop q (s.get (j + 1))) :
     Ev (fun f => parseExpressionLoop s f P (some (.infix t (some l) (some r))) (stAt s j) = .ok res) →
     Ev (fun f => parseExpression s f P (stAt s i) = .ok res) := by
@@ -414,9 +456,9 @@ theorem infix_body {t : Tk} {l r : Node} (hl : GP s c ap l) (hr : GP s c ap r) (
   refine fun h => hl w (precOf t.type) P i jl res (hc.mono hq) hseg.1 hjl
     (Stop_of_type (by rw [hty]; exact hb.2.2.2.2.2.1) (by rw [hty]; exact hb.2.2.2.2.2.2.1) (by rw [hty]; exact hb.2.2.2.2.2.2.2.1)
       (by rw [hty]; exact ⟨Nat.le_refl _, hb.2.2.2.2.2.2.2.2.2.2⟩)) (?_ : Ev _)
-  have h1 := hr (!c) (precOf t.type + 1) (precOf t.type) (jl + 2) j (some r, stAt s j)
+  have h1 := hr w2 (precOf t.type + 1) (precOf t.type) (jl + 2) j (some r, stAt s j)
     (Compat.of_lt (by omega) (by omega)) hseg.2.2 (by omega) (hstop.mono (by omega)) (ev_loop_stop (hstop.mono hq))
-  have hstart := (head_node r hfr (precOf t.type + 1) (!c)).seg_start hseg.2.2
+  have hstart := (head_node r hfr (precOf t.type + 1) w2).seg_start hseg.2.2
   refine Ev.step2 0 3 (fun F _ ha hb' f hf => ?_) h1 h
   rw [loop_step (s := s) (st := stAt s jl) (fn := .parseInfixExpression) (l' := some (.infix t (some l) (some r))) (st1 := stAt s j)
     (by simp only [stAt_peek, hty]; exact hb.2.2.2.2.1) (by simp only [stAt_peek, hty]; exact hP)
@@ -446,12 +488,12 @@ theorem gp_infix {t : Tk} {l r : Node} (hl : GP s c ap l) (hr : GP s c ap r) (hf
       rwa [show i + 1 + ((exprToks c ap (precOf t.type) false l).length + ((exprToks c ap (precOf t.type + 1) (!c) r).length + 1)) = j' + 1 by omega] at this
     refine grp (t := .infix t (some l) (some r)) (i := i) (j := j') (fun res' => ?_) (by have := seg_type hseg.1; simpa [lparen, sym] using this)
       (by have := seg_type hcl; simpa [rparen, sym] using this) hstop.1
-    exact infix_body hl hr hfl hfr hop false (precOf t.type) prioLOWEST (i + 1) j' res' (Nat.le_refl _) (Compat_low (by omega))
+    exact infix_body hl hr hfl hfr hop false (!c) (!c) (precOf t.type) prioLOWEST (i + 1) j' res' (Nat.le_refl _) (Compat_low (by omega))
       hseg2.1 (by omega) (stop_rparen hcl (by omega))
   · rw [if_neg hn] at hseg hj
     simp only [List.length_cons, List.length_append] at hj
     simp only [Bool.or_eq_true, decide_eq_true_eq, not_or, Nat.not_lt] at hn
-    exact infix_body hl hr hfl hfr hop ws q P i j res hn.2 hc hseg (by omega) hstop
+    exact infix_body hl hr hfl hfr hop ws (!c) (!c) q P i j res hn.2 hc hseg (by omega) hstop
 
 def GPL (s : TokStream) (c ap : Bool) (xs : NList) : Prop := ∀ x ∈ xs, ∃ n, x = some n ∧ fragN c ap n = true ∧ GP s c ap n
 
@@ -630,8 +672,44 @@ theorem stop_rbracket {q j : Nat} (h : key (s.get j) = key rbracket) (hq : 1 ≤
   exact Stop_of_type (by rw [this]; decide) (by rw [this]; decide) (by rw [this]; decide)
     (by rw [this]; exact ⟨hq, by decide⟩)
 
+/-- the index of `a[…]`: its tokens, parsed at level LOWEST in front of the `]` -/
+def IPB (s : TokStream) (idx : Node) (toks : List Tok) : Prop :=
+  ∀ (i ji : Nat), Seg s i toks → ji + 1 = i + toks.length → (s.get (ji + 1)).type = .RBRACKET →
+    Ev (fun f => parseExpression s f prioLOWEST (stAt s i) = .ok (some idx, stAt s ji))
+
+theorem stop_of_rbracket {q j : Nat} (h : (s.get j).type = .RBRACKET) (hq : 1 ≤ q) : Stop q (s.get j) :=
+  Stop_of_type (by rw [h]; decide) (by rw [h]; decide) (by rw [h]; decide) (by rw [h]; exact ⟨hq, by decide⟩)
+
+theorem ipb_of_gp {idx : Node} (hi : GP s c ap idx) : IPB s idx (exprToks c ap prioLOWEST false idx) := by
+  intro i ji hseg hj hr
+  exact hi false prioLOWEST prioLOWEST i ji _ (Compat_low (Nat.le_refl _)) hseg hj (stop_of_rbracket hr (Nat.le_refl _))
+    (ev_loop_stop (stop_of_rbracket hr (Nat.le_refl _)))
+
+/-- the open-ended `n:` of `a[n:]` -/
+theorem ipb_open {tc : Tk} {lc : Node} (hl : GP s c ap lc) (hfl : fragN c ap lc = true) (htc : tc.type = .COLON) :
+    IPB s (.infix tc (some lc) none) (exprToks c ap prioLOWEST false (.infix tc (some lc) none)) := by
+  intro i ji hseg hj hr
+  have hp : precOf tc.type = 4 := by rw [htc]; decide
+  simp only [exprToks, exprToksO, hp, Seg_append, Seg_cons, Seg_nil, and_true, List.length_append, List.length_cons, List.length_nil] at hseg hj
+  have hL := (head_node lc hfl 4 false).length_pos
+  obtain ⟨jc, rfl⟩ : ∃ jc, ji = jc + 1 := ⟨ji - 1, by omega⟩
+  have hcol : key (s.get (jc + 1)) = key (tk tc false) := by
+    have := hseg.2; rwa [show i + (exprToks c ap 4 false lc).length = jc + 1 by omega] at this
+  have hty : (s.get (jc + 1)).type = .COLON := by rw [seg_type hcol]; exact htc
+  refine hl false 4 prioLOWEST i jc _ (Compat_low (by omega)) hseg.1 (by omega)
+    (Stop_of_type (by rw [hty]; decide) (by rw [hty]; decide) (by rw [hty]; decide) (by rw [hty]; decide)) ?_
+  refine ⟨3, fun f hf => ?_⟩
+  obtain ⟨g, rfl⟩ : ∃ g, f = g + 3 := ⟨f - 3, by omega⟩
+  rw [loop_step (s := s) (st := stAt s jc) (fn := .parseInfixExpression) (l' := some (.infix tc (some lc) none)) (st1 := stAt s (jc + 1))
+    (by simp only [stAt_peek, hty]; decide) (by simp only [stAt_peek, hty]; decide) (by simp only [stAt_peek, hty]; decide)
+    (by simp only [stAt_peek, hty]; simp) (by simp only [stAt_peek, hty]; simp) ?_]
+  · exact loop_stop_of_Stop (by simp only [stAt_peek]; exact stop_of_rbracket hr (Nat.le_refl _))
+  · rw [id_infix, advance_stAt, parseInfixExpression_open (by simp only [stAt_cur]; exact hty) (by simp only [stAt_peek]; exact hr),
+      stAt_cur, seg_tk hcol]
+
 /-- `l[idx]` without outer parentheses -/
-theorem index_br_body {t : Tk} {l idx : Node} (ht : t.type = .LBRACKET) (hl : GP s c ap l) (hi : GP s c ap idx) (hfl : fragN c ap l = true)
+theorem index_br_body {t : Tk} {l idx : Node} (ht : t.type = .LBRACKET) (hl : GP s c ap l)
+    (hi : IPB s idx (exprToks c ap prioLOWEST false idx)) (hfl : fragN c ap l = true)
     (w : Bool) (q P i j : Nat) (res : ONode × PState) (hq : q ≤ 13) (hc : Compat P q)
     (hseg : Seg s i (exprToks c ap 13 w l ++ tk t false :: (exprToks c ap prioLOWEST false idx ++ [rbracket])))
     (hj : j = i + (exprToks c ap 13 w l).length + 1 + (exprToks c ap prioLOWEST false idx).length)
@@ -653,9 +731,7 @@ theorem index_br_body {t : Tk} {l idx : Node} (ht : t.type = .LBRACKET) (hl : GP
   have hcl : key (s.get (ji + 1)) = key rbracket := by
     have := hseg.2.2.2.1
     rwa [show jl + 1 + 1 + (exprToks c ap prioLOWEST false idx).length = ji + 1 by omega] at this
-  have hst := stop_rbracket hcl (Nat.le_refl 1)
-  have h1 := hi false prioLOWEST prioLOWEST (jl + 2) ji (some idx, stAt s ji) (Compat_low (Nat.le_refl _)) hseg.2.2.1 (by omega)
-    hst (ev_loop_stop hst)
+  have h1 := hi (jl + 2) ji hseg.2.2.1 (by omega) (by have := seg_type hcl; simpa [rbracket, sym] using this)
   refine Ev.step2 0 3 (fun F _ ha hb f hf => ?_) h1 h
   rw [loop_step (s := s) (st := stAt s jl) (fn := .parseIndexExpression) (l' := some (.index t (some l) (some idx))) (st1 := stAt s (ji + 1))
     (by simp only [stAt_peek, hty]; decide) (by simp only [stAt_peek, hty]; exact hP)
@@ -666,7 +742,8 @@ theorem index_br_body {t : Tk} {l idx : Node} (ht : t.type = .LBRACKET) (hl : GP
   · rw [id_index, advance_stAt, parseIndexExpression_bracket (st1 := stAt s ji) (idx := some idx) (by simpa using hty)
       (by simp only [advance_stAt]; exact ha f hf) (by simp only [stAt_peek]; exact seg_type hcl), stAt_cur, seg_tk hseg.2.1, advance_stAt]
 
-theorem gp_index_br {t : Tk} {l idx : Node} (ht : t.type = .LBRACKET) (hl : GP s c ap l) (hi : GP s c ap idx) (hfl : fragN c ap l = true) :
+theorem gp_index_br {t : Tk} {l idx : Node} (ht : t.type = .LBRACKET) (hl : GP s c ap l)
+    (hi : IPB s idx (exprToks c ap prioLOWEST false idx)) (hfl : fragN c ap l = true) :
     GP s c ap (.index t (some l) (some idx)) := by
   intro ws q P i j res hc hseg hj hstop
   have h1 : (t.type == TokType.DOT) = false := by rw [ht]; decide
@@ -782,7 +859,7 @@ theorem ip_dot {idx : Node} (hi : GP s c ap idx) (hfi : fragN c ap idx = true) :
   · rename_i hcond
     simp only [Bool.or_eq_true, Bool.not_eq_true', not_or, Bool.not_eq_false] at hcond
     cases idx with
-    | ident t => simp only [fragN, beq_iff_eq] at hfi; exact ip_atom (gpa_ident t hfi) c ap
+    | ident t => simp only [fragN, Bool.or_eq_true, beq_iff_eq] at hfi; exact ip_atom (gpa_ident t hfi) c ap
     | strLit t => simp only [fragN, beq_iff_eq] at hfi; exact ip_atom (gpa_strLit t hfi) c ap
     | boolean t => simp only [fragN, Bool.or_eq_true, beq_iff_eq] at hfi; exact ip_atom (gpa_boolean t hfi) c ap
     | post t p => simp only [fragN, Bool.and_eq_true, Bool.or_eq_true, beq_iff_eq] at hfi; exact ip_atom (gpa_post t p hfi.1 hfi.2) c ap
